@@ -99,7 +99,11 @@ func TestWorker(t *testing.T) {
 			continue
 		}
 		emit(map[string]interface{}{"t": "begin", "seed": seed, "idx": idx, "class": sc.Class})
+		firstObs = nil
 		res := eng.Run(t, sc)
+		if os.Getenv("VERIF_TRACE") != "" && res.Sample == nil && firstObs != nil {
+			res.Sample = dumpObs(firstObs, nil)
+		}
 		res.T = "end"
 		res.Seed = seed
 		res.Idx = idx
